@@ -215,6 +215,11 @@ def gen_server_script(rng):
     # handler faults: a few handler invocations raise
     if rng.random() < 0.35:
         cfg['faults'] = sorted(rng.sample(range(0, 40), rng.randint(1, 3)))
+    if rng.random() < 0.25:
+        # failing disconnect handlers (rare among all handler invocations:
+        # aimed at separately); behaviours of the first few invocations
+        cfg['disconnect_behaviours'] = [rng.choice(['ok', 'exc', 'exc'])
+                                        for _ in range(rng.randint(1, 4))]
     return cfg, ops
 
 
